@@ -209,12 +209,56 @@ def _stages(run, s, tier):
         run.sample({"library": name, "n": n, "functions": len(L.all_eq), "uniques": len(L.uniq), "rank_counts": [1] + Ps})
 
 
+def _make_changes(run, s, tier):
+    """generation stage: per-rank rewrites merged by the real make_changes on P real ranks, for every N up to a bound"""
+    import json
+    ns = list(range(0, 26 if tier == "quick" else 41))
+    total = 0
+    for P in ([2, 3, 4, 5, 7] if tier == "quick" else [2, 3, 4, 5, 6, 7, 8, 11, 16]):
+        outp = os.path.join(s, "c14_mc_%d.json" % P)
+        res = coord.run_ranks(P, "harness.targets:make_changes_batch", (ns, outp), s, timeout=900)
+        total += len(ns)
+        if res["status"] != "ok":
+            bad = [k for k, c in res["exit"].items() if c not in (0, 86)]
+            run.violation("make_changes:P%d:%s" % (P, res["status"]), "merging per-rank rewrites on %d ranks did not complete: %s %s\n%s" % (
+                P, res["status"], res["detail"][:300], coord.tail(res["out"][bad[0] if bad else 0], 8)), {"P": P})
+            continue
+        for b in json.load(open(outp))[:3]:
+            run.violation("make_changes:N%d:P%d" % (b["N"], b["P"]), "after make_changes on %d ranks the lists of N=%d functions are not the per-rank rewrites in file order: %s" % (b["P"], b["N"], b["errors"]), b)
+    run.add("make_changes", evaluations=total, nontrivial=total, traces=total)
+
+
+def _startup_dynamic(run, s, tier):
+    """depth-first exploration of the file-system interleavings of what every stage does first (constructor + get_functions) on real
+    ranks; independent of FS.tla's step structure, so a change that adds directory steps on other ranks is explored, not skipped"""
+    L, _ = common.gen_library(run, s, "core_maths", 2)
+    if L is None:
+        return
+    for P in ([2] if tier == "quick" else [2, 3]):
+        def make_args(k, P=P):
+            d2 = os.path.join(s, "c14_su_%d_%d" % (P, k))
+            os.makedirs(d2)
+            data.gauss_file(os.path.join(d2, "d.txt"), lambda x: 2 * x + 1, n=8)
+            return ("gauss", "d.txt", "r", d2, "core_maths", 2)
+        runs = coord.explore(P, "harness.targets:startup_stage", make_args, s, max_runs=24 if tier == "quick" else 120)
+        for trace, res in runs:
+            failed = sorted(r_ for r_, c in res["exit"].items() if c not in (0, 86))
+            if failed or res["status"] != "ok":
+                run.violation("startup_race:stage:P%d" % P, "likelihood constructor + get_functions on %d ranks from a fresh directory: with the ranks' file-system steps scheduled in the order %s rank(s) %s failed (%s %s)\n%s" % (
+                    P, trace, failed, res["status"], res["detail"][:200], coord.tail(res["out"][failed[0] if failed else 0], 4)), {"P": P, "grants": trace})
+        run.add("startup_stage_P%d" % P, evaluations=len(runs), nontrivial=len(runs), traces=len(runs))
+        for k in range(len(runs)):
+            shutil.rmtree(os.path.join(s, "c14_su_%d_%d" % (P, k)), ignore_errors=True)
+
+
 def run(tier, replay=None):
     r = evidence.Run(PID, tier, "model_checking")
     s = scratch.make()
     scratch.activate(s)
     _partition(r, s, tier)
+    _make_changes(r, s, tier)
     _startup(r, s, tier)
+    _startup_dynamic(r, s, tier)
     _stages(r, s, tier)
     r.cov["rule"] = ("partition: every (N,P) of Partition.tla's state space, real split_idx / get_functions / numpy.array_split slices judged by "
                      "PartitionJudge!Tiles; start-up: every interleaving of the constructor's isdir/mkdir steps enumerated by FS.tla replayed on real "
